@@ -73,6 +73,9 @@ def run_case(case):
     except (KeyError, TypeError):
         raise HarnessError("malformed case")
     dspec.validate(d)
+    from .c09 import _one_shot_spec
+    if _one_shot_spec(vs):
+        return {"status": "discarded", "fails": []}    # a one-shot iterator is consumed by whichever strategy reads it first
     try:
         a = run_strategy(d, True, vs, False)
         b = run_strategy(d, False, vs, False)
@@ -169,7 +172,61 @@ def with_features(case, fails):
     return out
 
 
+def run_func_case(case):
+    """a decorated function built twice (data_first_search on / off), the same call through both"""
+    from . import c08
+    sig, assign, spell = case["sig"], case["assign"], case.get("spell") or {}
+    c08.validate_sig(sig)
+    if sig.get("wrapper", "sync") != "sync":
+        raise HarnessError("sync functions only")
+    return _run_func(case, sig, assign, spell, collect=False)
+
+
+def _run_func(case, sig, assign, spell, collect):
+    from . import c08
+    outs = []
+    for dfs in (True, False):
+        s2 = dict(sig, options=dict((sig.get("options") or {}), data_first_search=dfs, **({"collect_errors": True} if collect else {})))
+        try:
+            mod, f = c08.build(s2, decorated=True)
+        except HarnessError:
+            raise
+        except decl_errors():
+            return {"status": "discarded", "fails": []}
+        try:
+            args, kw = c08.spell_call(sig, assign, spell)
+            for extra_k, extra_v in case.get("extra_kw") or []:
+                kw[extra_k] = codec.decode(extra_v)
+            mod.REC.clear()
+            mod.REC.update(entered=False, ret=None, yields=[])
+            o = oracle.outcome(f, *args, **kw)
+            if o[0] == "ok":
+                outs.append(("ok", oracle.plain(mod.REC.get("locals"))))
+            elif o[0] == "perr":
+                outs.append(("perr", sorted(map(repr, kinds_of(o[1])))))
+            else:
+                outs.append((o[0], type(o[1]).__name__ if o[0] == "other" else None))
+        finally:
+            c08.drop(mod)
+    a, b = outs
+    fails = []
+    if a[0] != b[0]:
+        fails.append((f"function/only-{'data-first' if a[0] != 'ok' else 'field-first'}-fails/{(a if a[0] != 'ok' else b)[1] if (a if a[0] != 'ok' else b)[0] == 'other' else (a if a[0] != 'ok' else b)[0]}",
+                      {"data_first": oracle.short(a), "field_first": oracle.short(b)}))
+    elif a[0] == "ok" and not oracle.equal(a[1], b[1]):
+        fails.append(("function/received-values-differ", {"data_first": oracle.short(a[1]), "field_first": oracle.short(b[1])}))
+    elif a[0] == "perr" and a[1] != b[1]:
+        if collect:
+            fails.append(("function/collected-error-sets-differ", {"data_first": a[1], "field_first": b[1]}))
+        else:
+            # fail-fast order is unspecified: the same KIND of failure = equal collected error sets
+            return _run_func(case, sig, assign, spell, collect=True)
+    return {"status": a[0] if a[0] == b[0] else "diverge", "fails": fails}
+
+
 def judge(case):
+    if "sig" in case:
+        return run_func_case(case)["fails"]
     return with_features(case, run_case(case)["fails"])
 
 
@@ -204,7 +261,41 @@ def case_strategy():
     return decls.flatmap(lambda d: st.fixed_dictionaries({"decl": st.just(d), "input": dspec.inputs_for(d)}))
 
 
+def func_cases():
+    from . import c08
+
+    @st.composite
+    def build(draw):
+        case = draw(c08.cases())
+        sig = dict(case["sig"], wrapper="sync")
+        for k in ("yield_t", "send_t", "eager"):
+            sig.pop(k, None)
+        sig["options"] = {k: v for k, v in (sig.get("options") or {}).items() if k != "data_first_search"}
+        out = {"sig": sig, "assign": case["assign"], "spell": case["spell"]}
+        # sometimes the same parameter arrives under two of its names
+        named = [p for p in sig["params"] if (p.get("alias") or p.get("alias_from")) and p["name"] in case["assign"] and case["spell"].get(p["name"]) not in ("position", None)]
+        if named and draw(st.booleans()):
+            p = draw(st.sampled_from(named))
+            other = p["name"] if case["spell"].get(p["name"]) == "alias" else (p.get("alias") or p["alias_from"][0])
+            out["extra_kw"] = [[other, draw(st.sampled_from([case["assign"][p["name"]], 1, "x"]))]]
+        return out
+    return build()
+
+
 def campaign(ctx):
+    def fbody(case):
+        try:
+            r = run_func_case(case)
+        except HarnessError:
+            ctx.label("function_case_discarded")
+            return
+        ctx.label(f"function_{r['status']}")
+        if r["status"] in ("ok", "perr", "diverge"):
+            ctx.nt(case)
+            ctx.sample("function-" + r["status"], case)
+        ctx.fail_all(r["fails"], case)
+    ctx.run_given(func_cases(), fbody, max_examples=ctx.n(400, 5000))
+
     def body(case):
         r = run_case(case)
         ctx.label(f"status_{r['status']}")
